@@ -133,10 +133,10 @@ PROPS = {
              'table keyed by the ordered pair stays valid; no existing node changes; requests are suspended and restored. The '
              'recursion equations of IMG/FIMG over the frozen entry heap are the DEFINITION of the ghost here (ASSUMED in the SMT layer): '
              'that they hold for the semantic relational product (rename, conjoin, quantify) under the documented adjacency '
-             'precondition is lemma L-IMG (lean/BddTheory.lean). The wrappers image()/preimage() (argument translation, precondition '
+             'precondition is lemma L-IMG, proved in lean/BddImage.lean (img_rec_ex, img_rec_fa, img_base). The wrappers image()/preimage() (argument translation, precondition '
              'checks) and the equality with rename/conjoin/quantify itself are checked against the truth-table composition, '
              'exhaustive for one variable pair.',
-             bounded=['vlib.rtc.c13'], tb=['IMG/FIMG recursion equations (ghost definition; see lemma L-IMG)', 'image(), preimage(), _assert_valid_rename, _all_adjacent: bounded only'],
+             bounded=['vlib.rtc.c13'], tb=['IMG/FIMG recursion equations are the ghost definition in the SMT layer; that the semantic relational product satisfies them is lemma L-IMG (Lean); the correspondence of the two texts is by inspection', 'image(), preimage(), _assert_valid_rename, _all_adjacent: bounded only'],
              design_ref='DESIGN.md 7/C13'),
     'C14': P('other',
              'Proved: add_var (idempotent for existing names, next bottom level by default, ValueError iff conflict with state unchanged, '
